@@ -185,6 +185,7 @@ type Exec struct {
 	directRecover bool
 	dbAx          []dbAxiom
 	constArrs     map[string]*Term
+	rawElemTy     map[string]types.Type
 	epochCounter  int
 	pendingBinds  []*Clause
 	callCount     map[string]int
